@@ -286,6 +286,11 @@ CONSTRUCTED += [
     {"jobs": [_job({}, {"y": {"w": 1}}, {"y": [1, 2]})], "src_pdoc": {"y": {"w": 1}}, "dst_pdoc": {"y": []}, "options": _o(dry_run=True, entry=_e)}
     for _e in ("sync_projects", "Job.sync")
 ]
+# deep comparison below the top level of a job (common sub-directories, two levels)
+_DEEPNESTED = _job({"sub/h.txt": _f("ab", "ba", 1, 1), "sub/deep/i.txt": _f("hello\n", "HELLO\n", 2, 2), "f.txt": _f("a", "a", 1, 1)}, None, None, {"a": 0})
+for _e in ("Project.sync", "sync_projects", "Job.sync", "sync_jobs"):
+    for _s in (None, "always"):
+        CONSTRUCTED.append({"jobs": [_DEEPNESTED], "src_pdoc": None, "dst_pdoc": None, "options": _o(deep=True, recursive=True, strategy=_s, entry=_e)})
 for _par in (2, True):
     CONSTRUCTED += [
         {"jobs": [_OLD, _NEW, _OLD2, _job({"f.txt": _f("a", None)}, {"x": 1}, {"y": 1}, {"a": "x"})], "src_pdoc": {"x": 1}, "dst_pdoc": {"y": 1},
